@@ -40,12 +40,22 @@ def keys_of_model(model):
 class PerFileModel:
     """rev -> {fid: (key, last_changed, heads)}; heads is the ordered tuple of
     per-file parents that a *new* version recorded at that revision must have
-    (also computed for carried-over entries, where it is (last_changed,))."""
+    (also computed for carried-over entries, where it is (last_changed,)).
+
+    Heads are the maximal candidates in the PER-FILE graph (text versions and
+    their recorded parents) - the semantics Repository.check() verifies. The
+    revision graph gives the same answer except when a file id is absent from
+    an intermediate revision (dropped by a merge) and kept through another
+    parent: then an older version is an ancestor by revision but not by
+    per-file history. `alt` records the revision-graph answer where it differs
+    so that the failure class can be named."""
 
     def __init__(self):
         self.graph = {}      # rev -> tuple(parents incl. ghosts)
         self.ent = {}        # rev -> {fid: (key, lc, heads)}
         self.features = {}   # rev -> set of feature names (non-triviality)
+        self.tgraph = {}     # fid -> {rev: tuple(per-file parent revs)}
+        self.alt = {}        # (rev, fid) -> (lc, heads) by revision-graph heads
 
     def add(self, rid, parents, ghosts, entries):
         """parents: present parents in order (first = left-hand)."""
@@ -64,17 +74,23 @@ class PerFileModel:
                     cands.append(pe[1])
                     pents.append(pe)
             cands = list(dict.fromkeys(cands))
-            hs = gm.heads(self.graph, cands)
-            lc = rid
-            carrier = None
-            if len(hs) == 1:
-                for pe in pents:
-                    if pe[1] == hs[0]:
-                        carrier = pe
-                        break
-                if carrier[0] == key:
-                    lc = hs[0]
+            tg = self.tgraph.setdefault(fid, {})
+            hs = gm.heads(tg, cands)
+
+            def decide(heads):
+                if len(heads) == 1:
+                    for pe in pents:
+                        if pe[1] == heads[0]:
+                            return heads[0] if pe[0] == key else rid
+                return rid
+            lc = decide(hs)
+            hs_rev = gm.heads(self.graph, cands)
+            if hs_rev != hs:
+                feats.add("revision-graph-heads-differ")
+                self.alt[(rid, fid)] = (decide(hs_rev), tuple(hs_rev))
             out[fid] = (key, lc, tuple(hs))
+            if lc == rid:
+                tg[rid] = tuple(hs)
             if len(parents) > 1 and fid != tm.ROOT_ID:
                 left = self.ent[parents[0]].get(fid)
                 if len(hs) >= 2:
@@ -127,7 +143,7 @@ class PerFileModel:
         return out
 
 
-NT_PRIORITY = ["identical-parallel-change", "merged-change-reverted",
+NT_PRIORITY = ["revision-graph-heads-differ", "identical-parallel-change", "merged-change-reverted",
                "three-heads", "per-file-fork", "changed-after-merge",
                "carried-from-merged-parent"]
 
@@ -177,7 +193,15 @@ def check_repository(repo, model, revmap, tag, rich_root=None):
     with repo.lock_read():
         if rich_root is None:
             rich_root = repo.supports_rich_root()
-        for rid in sorted(model.ent):
+        for rid in model.ent:
+            got_parents = tuple(_s(p) for p in repo.get_revision(
+                bz.enc(revmap[rid])).parent_ids)
+            if got_parents != tuple(model.graph[rid]):
+                # the model was fed a DAG the builder did not produce
+                # (e.g. set_parent_ids dropped a redundant parent)
+                raise RuntimeError(
+                    "harness: revision %s has parents %r, model assumed %r" % (
+                        rid, got_parents, model.graph[rid]))
             tree = repo.revision_tree(bz.enc(revmap[rid]))
             obs = observed_entries(tree)
             exp = model.ent[rid]
@@ -192,8 +216,11 @@ def check_repository(repo, model, revmap, tag, rich_root=None):
                 if fid == tm.ROOT_ID and not rich_root:
                     continue
                 orev = inv.get(orev, orev)
+                alt = model.alt.get((rid, fid))
                 if orev != lc:
-                    if lc == rid:
+                    if alt is not None and alt[0] == orev:
+                        sig = "last-changed-follows-revision-graph-heads"
+                    elif lc == rid:
                         sig = "last-changed-carried-over-but-new-version-expected"
                     elif orev == rid:
                         sig = "last-changed-new-version-but-entry-unchanged"
@@ -217,13 +244,17 @@ def check_repository(repo, model, revmap, tag, rich_root=None):
         check(not extra, pre + "text-version-unreferenced", extra[:5])
         keys = [(bz.enc(f), bz.enc(revmap[r])) for f, r in sorted(want)]
         pm = repo.texts.get_parent_map(keys)
-        for (f, r) in sorted(want):
+        order = {r: i for i, r in enumerate(model.ent)}
+        for (f, r) in sorted(want, key=lambda k: (order[k[1]], k[0])):
             got = pm.get((bz.enc(f), bz.enc(revmap[r])))
             check(got is not None, pre + "text-version-missing", [f, r])
             gotp = tuple((_s(p[0]), inv.get(_s(p[1]), _s(p[1]))) for p in got)
             wantp = tuple((f, h) for h in want[(f, r)])
             if gotp != wantp:
-                if sorted(gotp) == sorted(wantp):
+                alt = model.alt.get((r, f))
+                if alt is not None and gotp == tuple((f, h) for h in alt[1]):
+                    sig = "text-parents-follow-revision-graph-heads"
+                elif sorted(gotp) == sorted(wantp):
                     sig = "text-parents-order"
                 elif set(wantp) < set(gotp):
                     sig = "text-parents-include-non-heads"
@@ -276,6 +307,10 @@ def fetch_copy(repo, path, format):
 BR = ["a", "b", "c"]
 
 
+class StopScript(Exception):
+    pass
+
+
 class Script:
     def __init__(self, case, root):
         self.case = case
@@ -287,6 +322,7 @@ class Script:
         self.stats = {"merges": 0, "conflicted": 0, "aborted": 0,
                       "reverts": 0, "cherry": 0, "pulls": 0, "twins": 0}
         self.repo = None
+        self.setup_failure = None
 
     # -- bookkeeping
     def _entries_from_disk(self, wt):
@@ -341,10 +377,12 @@ class Script:
         self.n += 1
         present = [p for p in parents if p in self.model.ent]
         ghosts = [p for p in parents if p not in self.model.ent]
+        wt.set_conflicts([])
         wt.commit("m %s" % rid, rev_id=bz.enc(rid), allow_pointless=True,
                   timestamp=bz.T0 + 10 * self.n, timezone=0,
                   committer=bz.COMMITTER, revprops={"branch-nick": "nick"})
         self.model.add(rid, present, ghosts, entries)
+        self.tidy(wt)
         return rid
 
     # -- late-bound edits
@@ -515,8 +553,11 @@ class Script:
             t = a.controldir.sprout(
                 os.path.join(self.root, BR[i])).open_workingtree()
             self.trees.append(t)
-        for step in case["steps"]:
-            self.step(step)
+        try:
+            for step in case["steps"]:
+                self.step(step)
+        except StopScript:
+            pass
         return self.model
 
     def _tip_back(self, wt, back):
@@ -527,6 +568,25 @@ class Script:
                 break
             rid = ps[0]
         return rid
+
+    def _setup(self, what, fn, *a, **kw):
+        """Run one call of the machinery that only PREPARES the history
+        (merge_from_branch, revert, pull - never commit). These operations are
+        other properties' subjects; on generated conflict-laden trees they can
+        fail internally (MalformedTransform, NoFinalPath, DuplicateKey, the
+        dirstate's lstat AssertionError, ...). Such a failure ends the script:
+        what was committed so far is still checked, the case is reported as
+        'rejected' with the failing call and exception type as its reason (so
+        it stays visible in the evidence), and commits are never guarded."""
+        from breezy import errors
+        from breezy.workingtree import PointlessMerge
+        try:
+            return fn(*a, **kw)
+        except (PointlessMerge, errors.DivergedBranches):
+            raise
+        except Exception as e:  # noqa: BLE001 - set-up only, see docstring
+            self.setup_failure = "%s raised %s" % (what, type(e).__name__)
+            raise StopScript()
 
     def step(self, step):
         from breezy import errors
@@ -557,10 +617,11 @@ class Script:
             if dst is src:
                 return
             try:
-                dst.pull(src.branch)
+                self._setup("pull", dst.pull, src.branch)
                 self.stats["pulls"] += 1
             except errors.DivergedBranches:
                 pass
+            self.tidy(dst)
         elif k in ("merge", "cherry"):
             dst = trees[step[1] % len(trees)]
             src = trees[step[2] % len(trees)]
@@ -574,8 +635,8 @@ class Script:
                     return
                 kw["from_revision"] = bz.enc(ps[0])
             try:
-                dst.merge_from_branch(src.branch, to_revision=bz.enc(to_rev),
-                                      **kw)
+                self._setup("merge_from_branch", dst.merge_from_branch,
+                            src.branch, to_revision=bz.enc(to_rev), **kw)
             except PointlessMerge:
                 return
             conflicted = bool(dst.conflicts())
@@ -604,7 +665,7 @@ class Script:
                         if ents else []
                 # basis paths too: reverting a file the merge renamed/added
                 if paths:
-                    dst.revert(paths, backups=False)
+                    self._setup("revert", dst.revert, paths, backups=False)
                     self.stats["reverts"] += 1
             for op in step[6]:
                 self.apply_lop(dst, op)
@@ -616,7 +677,12 @@ class Script:
 
     def restore(self, wt):
         """Throw away all uncommitted state incl. pending merges."""
-        wt.revert(backups=False)
+        self._setup("revert", wt.revert, backups=False)
+        self.tidy(wt)
+
+    def tidy(self, wt):
+        """No conflicts recorded, no unversioned leftovers (conflict helper
+        files would get in the way of later merges and pulls)."""
         wt.set_conflicts([])
         # unversioned leftovers (conflict helper files) are harmless but may
         # block later adds; remove them
